@@ -496,3 +496,48 @@ def excitation_opt(Abar, c0, b, lo, hi, tol=1e-9):
         else:
             lo_t = mid
     return hi_t
+
+
+# ---------------------------------------------------------------------------
+# convex minimisation over a polytope given by its vertex set (small): candidate + certificate
+
+
+def min_over_hull(f, grad, V):
+    """minimise convex differentiable f over conv(V) (rows of V).  Returns (x, f(x), lower bound).
+    x is a feasible candidate (so f(x) is an upper bound of the optimum), lower bound from convexity."""
+    from scipy.optimize import minimize
+
+    V = np.asarray(V, dtype=float)
+    k = len(V)
+    if k == 1:
+        x = V[0]
+        return x, float(f(x)), float(f(x))
+
+    def fl(lam):
+        return f(lam @ V)
+
+    def gl(lam):
+        return V @ grad(lam @ V)
+
+    best = None
+    starts = [np.full(k, 1.0 / k)] + [np.eye(k)[i] * 0.9 + 0.1 / k for i in range(min(k, 3))]
+    for lam0 in starts:
+        try:
+            r = minimize(fl, lam0, jac=gl, method="SLSQP", bounds=[(0.0, 1.0)] * k, constraints=[dict(type="eq", fun=lambda l: np.sum(l) - 1.0, jac=lambda l: np.ones(k))],
+                         options=dict(ftol=1e-15, maxiter=500))
+        except Exception:  # noqa
+            continue
+        lam = np.clip(r.x, 0, None)
+        if lam.sum() <= 0:
+            continue
+        lam = lam / lam.sum()
+        x = lam @ V
+        if best is None or f(x) < f(best):
+            best = x
+    # vertices themselves are candidates as well
+    for v in V:
+        if best is None or f(v) < f(best):
+            best = v
+    g = grad(best)
+    low = float(f(best) + np.min((V - best) @ g))
+    return best, float(f(best)), low
